@@ -74,9 +74,9 @@ Definition nudge (c : context) : context :=
   | _ => c
   end.
 
-(* joinNames *)
+(* joinNames (fix: keep the names accumulated on the first branch in joinNames) *)
 Definition join_names (an bn : bytes) (ans bns : list bytes) : list bytes :=
-  (if bytes_eqb an bn then [] else [an; bn]) ++ filter (fun n => negb (mem_bytes n ans)) bns.
+  ans ++ (if bytes_eqb an bn then [] else [an; bn]) ++ filter (fun n => negb (mem_bytes n ans)) bns.
 
 Definition set_elem (c : context) (e : bytes) : context :=
   mkctx (c_state c) (c_delim c) e (c_elem_names c) (c_attr c) (c_attr_value c) (c_attr_amb c)
@@ -90,7 +90,8 @@ Definition join_merge (a b : context) : context :=
   mkctx (c_state a) (c_delim a) (c_elem a)
         (join_names (c_elem a) (c_elem b) (c_elem_names a) (c_elem_names b))
         (c_attr a) (c_attr_value a)
-        (c_attr_amb a || negb (bytes_eqb (c_attr_value a) (c_attr_value b)))
+        (c_attr_amb a || negb (bytes_eqb (c_attr_value a) (c_attr_value b)) || c_attr_amb b)
+        (* || c_attr_amb b: fix: keep the ambiguity ... when only the second joined branch carries it *)
         (join_names (c_attr a) (c_attr b) (c_attr_names a) (c_attr_names b))
         (c_err a) (c_script_type a) (c_link_rel a).
 
